@@ -38,13 +38,15 @@ def c16OptBoolVal : Option Bool → Val
   | none => Val.none
   | some b => Val.bool b
 
-/-! ### Delta: Python's `abs` -/
-
-theorem c16_pyAbs_eq (a : Rat) : Gen.TrFo.pyAbs a = absQ a := rfl
+/-! ### Delta: `abs` of a difference is symmetric (also with the non-finite floats) -/
 
 theorem c16_absQ_sub_comm (a b : Rat) : absQ (a - b) = absQ (b - a) := by
   unfold absQ
   by_cases h1 : a - b < 0 <;> by_cases h2 : b - a < 0 <;> simp only [h1, h2, if_true, if_false] <;> grind
+
+theorem c16_xabs_sub_comm (a b : XNum) : XNum.abs (a.sub b) = XNum.abs (b.sub a) := by
+  cases a <;> cases b <;> simp [XNum.abs, XNum.sub]
+  next x y => exact c16_absQ_sub_comm x y
 
 /-! ### the translated `Event.send` with the filters of this model -/
 
